@@ -245,6 +245,9 @@ def tname(tx):
         return f"D[{tname(a[0])},{a[1]}]"
     if h == "G":
         return f"{a[0]}[" + ",".join(tname(x) for x in a[1:]) + "]"
+    if h in ("U", "I"):
+        # unions / intersections are sets of members: the canonical name does not depend on their order
+        return h + "[" + ",".join(sorted(tname(x) for x in a)) + "]"
     return h + "[" + ",".join(tname(x) for x in a) + "]"
 
 
